@@ -13,19 +13,19 @@ import (
 )
 
 func init() {
-	register(&Rule{ID: "A-ERR-IS", Props: []string{"C08"}, Floor: 10,
+	register(&Rule{ID: "A-ERR-IS", Props: []string{"C08"}, Floor: 8,
 		Doc: "every error type of the root package matches exactly one exported sentinel in its Is method and has no Unwrap; every internal evaluator error type matches at most one internal sentinel",
 		Run: ruleAErrIs})
-	register(&Rule{ID: "A-ERRMAP", Props: []string{"C08", "C04", "C03", "C05", "C02", "C19"}, Floor: 20,
+	register(&Rule{ID: "A-ERRMAP", Props: []string{"C08", "C04", "C03", "C05", "C02", "C19"}, Floor: 7,
 		Doc: "every concrete error type that can leave parser.Parse / evaluator.Evaluate is pushed through the decision chain of parseError / evaluateError (type assertions and errors.Is tests, in order, using the internal Is methods); the resulting public sentinel must be the category the specification names for that fault; wrappers with Unwrap may only wrap errors of library calls",
 		Run: ruleAErrMap})
-	register(&Rule{ID: "A-NIL-RESULT", Props: []string{"C08"}, Floor: 6,
+	register(&Rule{ID: "A-NIL-RESULT", Props: []string{"C08"}, Floor: 2,
 		Doc: "in the API functions every return carrying a non-nil error carries the nil constant as result",
 		Run: ruleANilResult})
-	register(&Rule{ID: "A-API-SHAPE", Props: []string{"C08", "C06"}, Floor: 8,
+	register(&Rule{ID: "A-API-SHAPE", Props: []string{"C08", "C06"}, Floor: 3,
 		Doc: "Search/Compile/MustCompile pass their expression parameter to parser.Parse on every path before returning; evaluation happens only under the nil-error edge of Parse; results come only from evaluator.Evaluate(node, data); errors are routed through parseError / evaluateError; MustCompile panics exactly on the Parse error; Parse never sees the data",
 		Run: ruleAAPIShape})
-	register(&Rule{ID: "A-PANIC", Props: []string{"C03", "C06"}, Floor: 2,
+	register(&Rule{ID: "A-PANIC", Props: []string{"C03", "C06"}, Floor: 1,
 		Doc: "API-reachable code contains no explicit panic except MustCompile's, no call to a Must* function, and every call to a decimal128 method documented to panic on NaN/Inf (Int, Int32, Int64, Uint32, Uint64, Float, Rat, Sign, Payload) is dominated by the false edge of IsNaN (and IsInf where needed) on the same value",
 		Run: ruleAPanic})
 }
